@@ -268,7 +268,8 @@ impl Property for C05 {
     fn rule(&self) -> String {
         "stateful model-based: generated histories (create/delete/append/truncate/persist/restart on \
          existing, missing and unusual names; every position and truncation selector; payloads 0..150 KiB) \
-         run in lock-step on the real log and a naive reference model; after EVERY call the outcome and \
+         run in lock-step on the real log and a naive reference model (re-seeded with the observed state at every restart: \
+         what a restart preserves is C01's concern); after EVERY call the outcome and \
          all read accessors (list_queues, queue_exists, range with generated (Bound,Bound) pairs, \
          last_position, last_record, summary) are compared byte for byte. evaluations = API calls checked. \
          non-trivial = history exercising >= 4 distinct call/outcome classes; distinct = hash of the \
@@ -286,7 +287,7 @@ impl Property for C05 {
 
     fn cases(&self, tier: Tier) -> u32 {
         match tier {
-            Tier::Quick => 6_000,
+            Tier::Quick => 40_000,
             Tier::Thorough => 120_000,
         }
     }
@@ -317,7 +318,17 @@ impl Property for C05 {
                 .queue()
                 .and_then(|q| exec.model.queues.get(&q.text()).map(|queue| (queue.first_position(), queue.recs.len())));
             let step = exec.step_concrete(cop)?;
-            exec.check_outcome(&step)?;
+            if matches!(step.cop, COp::Restart { .. }) {
+                // What a restart preserves is C01's concern: the model is re-seeded with whatever the re-opened log
+                // shows, so that C05 keeps judging the calls made AFTER the restart (on replay-built structures) only.
+                exec.usable_or_skip(&step)?;
+                match exec.driver.observe() {
+                    Ok(observed) => exec.model = Model::from_state(&observed),
+                    Err(_) => return Err(CaseError::Skip("live-state-unobservable".to_string())),
+                }
+            } else {
+                exec.check_outcome(&step)?;
+            }
             let mut class = call_class(&step.cop, &step.expected, before_next);
             if let (COp::Truncate { pos, .. }, Outcome::Truncated { evicted }) = (&step.cop, &step.expected) {
                 let (first, count) = before_first.unwrap_or((0, 0));
